@@ -50,6 +50,11 @@ const std::vector<Case>& cases() {
 		{"clm-edge", {}, false, ~0ull},
 		{"clm-name", {}, false, 9},
 		{"clm-name", {}, false, 12},
+		// names of more than 8 BYTES that are at most 8 characters in UTF-8 (two-byte letters), packed while the process's C locale and
+		// LANG say UTF-8: the index field holds 8 bytes whatever the locale says
+		{"clm-name", {}, false, 0x100 + 10},
+		{"clm-name", {}, false, 0x100 + 12},
+		{"clm-name", {}, false, 0x100 + 16},
 		{"prefix", {}, false, 256},       // arg = element count; prefix type from arg range
 		{"prefix", {}, false, 300},
 		{"prefix", {}, false, 65536},
@@ -88,6 +93,8 @@ struct Limits : Family {
 		static const uint64_t SR[] = {0, 0, 65536, 1 << 20};
 		p.setenv("short_read", SR[r.below(4)]);
 		p.setenv("eintr", r.chance(3, 4) ? 0 : r.range(3, 9));
+		if (std::string(cs[ci].kind) == "clm-name" && cs[ci].arg >= 0x100) { p.setenv("clocale", "C.UTF-8"); p.setenv("os.LANG", "C.UTF-8"); p.setenv("os.LC_ALL", "C.UTF-8"); }
+		else if (r.chance(1, 4)) { static const char* L[] = {"C", "C.UTF-8", "POSIX", "en_US.UTF-8", "xx_YY.bogus", "tr_TR.ISO-8859-9"}; p.setenv("os.LANG", L[r.below(6)]); }
 		Line c = mkline("world", "case");
 		c.set("ci", ci).set("sentinel", sentinel ? 1 : 0).set("nseed", hex64(r.next())).set("perm", hex64(r.next()));
 		p.world.push_back(c);
@@ -179,11 +186,13 @@ struct Limits : Family {
 		} else if (kind == "clm-name") {
 			ref::WavSpec w;
 			w.data = prngBytes(nseed, 10);
-			std::string base = randName(r, static_cast<size_t>(c.arg), static_cast<size_t>(c.arg), false);
+			std::string base;
+			if (c.arg >= 0x100) { for (uint64_t q = 0; q < (c.arg - 0x100) / 2; ++q) { base.push_back(static_cast<char>(0xC3)); base.push_back(static_cast<char>(0xA0 + r.below(0x17))); } ctx.count("probe.multibyte_name_under_utf8_locale"); }
+			else base = randName(r, static_cast<size_t>(c.arg), static_cast<size_t>(c.arg), false);
 			std::string nm = "_in/" + base + ".wav";
 			disk::put(nm, ref::encodeWav(w));
 			Out o = callLib(plan, [&] { Archive::ClmFile::CreateArchive("_n.clm", {nm}); }, &what);
-			refuseOrFit(o, "ClmFile::CreateArchive with a " + std::to_string(c.arg) + "-character base name");
+			refuseOrFit(o, "ClmFile::CreateArchive with a " + std::to_string(base.size()) + "-byte base name" + (c.arg >= 0x100 ? " (" + std::to_string(base.size() / 2) + " two-byte UTF-8 letters, C locale set to C.UTF-8)" : ""));
 		} else if (kind == "prefix") {
 			size_t n = static_cast<size_t>(c.arg);
 			std::vector<uint8_t> cont = prngBytes(nseed, n);
